@@ -401,6 +401,13 @@ class BuilderMixin:
             walk(v)
         return out
 
+    parse_fns = ("deb822_lossless::lossless::parse", "debian_control::lossless::relations::parse")
+
+    def on_return(self, I, f, v, st):
+        if f.get("key") in self.parse_fns:
+            st = st.setmon("err_parse", bool(st.mon.get("err")))
+        return [(v, st)]
+
     on_finish = None
     on_token = None
     on_error = None
